@@ -215,7 +215,11 @@ func loadTable2(db *Database, ts *meta.Schema,
 	indexes := buildIndexes(ts, list, db, nrows, 0)
 	ti := meta.NewInfo(ts.Table, indexes, nrows, size)
 	if overwrite {
-		db.OverwriteTable(ts, ti)
+		// Run by the merger so it is serialized with merges and persists
+		// that were computed on the table that is being replaced.
+		db.RunEndExclusive(ts.Table, func() {
+			db.OverwriteTable(ts, ti)
+		})
 	} else {
 		db.AddNewTable(ts, ti)
 	}
